@@ -504,6 +504,27 @@ func genCase(t *rapid.T) Case {
 	if rapid.IntRange(0, 19).Draw(t, "faultkind") == 10 {
 		return cs // honest
 	}
+	if rapid.IntRange(0, 11).Draw(t, "alignedpair") == 0 {
+		// Two flips in one column: a payload row and the check-batch row
+		// at the same position of its 1024-row block, with batch sizes at
+		// and next to multiples of 1024 (where the check batch follows a
+		// completely filled block).  Either both take effect and the
+		// sender aborts or delivers consistent labels, as for any pair.
+		cs.N = rapid.SampledFrom([]int{1024, 1024, 2048, 1023, 1025, 768, 3072}).Draw(t, "alignedn")
+		cs.Ch = drawChoice(t, cs.N)
+		j := rapid.IntRange(0, 255).Draw(t, "alignedrow")
+		block := (cs.N - 1) / 1024
+		if rapid.IntRange(0, 3).Draw(t, "alignedblock") == 0 {
+			block = rapid.IntRange(0, block).Draw(t, "blockidx")
+		}
+		r := block*1024 + j
+		if r >= cs.N {
+			r = j
+		}
+		c := drawCol(t, cs.Delta)
+		cs.Flips = []Flip{{Where: "payload", Col: c, Row: r}, {Where: "check", Col: c, Row: j}}
+		return cs
+	}
 	nf := 1
 	if rapid.IntRange(0, 3).Draw(t, "multi") == 0 {
 		nf = rapid.IntRange(2, 4).Draw(t, "nflips")
